@@ -12,6 +12,7 @@ CONSTANTS
   EUSuffixed = {}
   GenClasses = {"scalar", "array", "bitfield", "nested", "anon", "alignas", "flex"}
   GenPacked = TRUE
+  McSel = "full"
   CheckSim = TRUE
 INVARIANTS Inv_RefineStep Inv_RefineDone Inv_ImplSane Inv_SimFinish
 VIEW AccView
